@@ -115,6 +115,7 @@ func (g *Gen) note(f string, a ...any) { g.notes[fmt.Sprintf(f, a...)] = true }
 
 type FnCtx struct {
 	callPreHit map[int]bool
+	onlyHit    map[string]bool
 	g       *Gen
 	fn      *ssa.Function
 	spec    *FuncSpec
@@ -930,6 +931,11 @@ func (c *FnCtx) run() {
 		c.cover("some-return", or(c.retReach...))
 	}
 	// vacuity guard: a callpre clause that matches no call site checks nothing
+	for _, oc := range c.spec.OnlyCalls {
+		if !c.onlyHit[oc.Frag] && len(oc.Allowed) > 0 {
+			c.abort("only clause (%s) matches no call site", oc.Frag)
+		}
+	}
 	for i, cp := range c.spec.CallPres {
 		if !c.callPreHit[i] {
 			c.abort("callpre %d (%s) matches no call site", i+1, cp.Name)
